@@ -1158,7 +1158,9 @@ impl St {
                             let k = texts.len();
                             let mut trees: Vec<Option<MarkerTree>> = vec![None; k];
                             for i in 0..k {
-                                let j = (i + t * 7) % k;
+                                // even threads walk the texts forwards from their offset, odd threads backwards: every pair of texts is
+                                // reached in both orders by some thread
+                                let j = if t % 2 == 0 { (i + t * 7) % k } else { (k - 1 - i + t * 7) % k };
                                 trees[j] = MarkerTree::from_str(&texts[j]).ok();
                             }
                             let mut obs: Vec<S> = Vec::new();
@@ -1179,6 +1181,10 @@ impl St {
                                     S::bool(a.is_disjoint(&b)), S::bool(x == y), S::bool(x < y),
                                 ]));
                             }
+                            // the order of all markers this thread built (Ord must not depend on who interned what first)
+                            let mut idx: Vec<usize> = (0..k).filter(|j| trees[*j].is_some()).collect();
+                            idx.sort_by(|a, b| trees[*a].as_ref().unwrap().cmp(trees[*b].as_ref().unwrap()).then(a.cmp(b)));
+                            obs.push(S::l(idx.iter().map(|j| S::a(*j)).collect()));
                             (obs, trees)
                         }));
                         let _ = tx.send((t, r.ok()));
